@@ -1,6 +1,13 @@
 class Writer:
   def __str__(self):
-    return "#" + str(self.spacer) + str(self.content)
+    return "#" + self._field_str("spacer") + self._field_str("content")
+
+  def _field_str(self, fieldname):
+    if self.vlevel >= 2:
+      # as for the other lines, the fields are validated when written
+      return self.field_to_s(fieldname)
+    else:
+      return str(self.get(fieldname))
 
   def to_list(self):
     """Convert the content of the comment line to a list.
